@@ -1,7 +1,7 @@
 """Engine B ("kx"): Kani on a scratch copy of the real crates.
 
 /repo is never edited.  The workspace is mirrored to a scratch directory outside
-/repo and /verif, `#[instrument...]` attributes are stripped (kani-compiler 0.68
+/repo and /verif, `#[instrument...]` attributes and `tracing::<level>!(..);` statements are stripped (kani-compiler 0.68
 ICEs on them; stated drop), and the harness modules of /verif/kani/*.inject.rs
 are appended to the real source files (inside the named module so that private
 items are reachable).  Harness metadata lives in the inject files:
@@ -130,6 +130,11 @@ def prepare(extra_tests=None):
                     if '/trippy-core/' in src or '/trippy-packet/' in src:
                         txt, n = strip_instrument(txt)
                         dropped += n
+                        if 'tracing::' in txt:
+                            # `tracing::debug!(..)` statements with arguments in harness-reachable code make kani-compiler 0.68
+                            # panic (intrinsics.rs:243); logging statements are dropped like the #[instrument] attributes
+                            import vx as _vx
+                            txt = _vx.strip_macro_stmts(txt, ['tracing::trace', 'tracing::debug', 'tracing::info', 'tracing::warn', 'tracing::error'], [])
                     for i in by_target.get(rel, []):
                         m_in = re.search(r'^//@inside\s+(.+)$', i['text'], re.M)
                         if m_in:
